@@ -907,3 +907,4 @@ EXPLANATION += (' Location-independent additions: RHYTHM/boundary (path-wise val
 EXPLANATION += (' Round 6: ' + 'TUNES/blank-line-separation (no cut at a literal newline sequence; lines come from splitlines and are stripped before the emptiness test); TEMPO/bare-unit-current (path-wise: without a beat length the qpm reads the current unit note length, not a snapshot attribute other methods do not refresh).')
 EXPLANATION += (' Round 7: ' + 'ACC/bar-clears-every-bar (the clearing never depends on the groups of the bar-symbol match); TEMPO/last-read-governs (_qpm is the last element of the tempo list, not max(..., key=time)).')
 EXPLANATION += (' Rounds 9-10: ' + 'PITFALL/shadowed-literal-branch over abc_parser (string scenarios on if/elif chains that dispatch on a text).')
+EXPLANATION += (' Round 11: ' + 'PITCH/midi-range-inclusive (the pitch rejection guard evaluated at -1, 0, 127, 128).')
